@@ -41,8 +41,8 @@ META = {
     "anchor_files": ["discretisedfield/field.py", "discretisedfield/io/hdf5.py",
                      "discretisedfield/io/vtk.py"],
     "assumptions": [
-        "'norm' validity is judged for lengths >= 1e-6 (valid) and <= 1e-9 or exactly 0 "
-        "(invalid); the band around the library's absolute 1e-8 threshold is not generated",
+        "'norm' validity is judged for lengths >= 1.1e-8 (valid) and <= 0.9e-8 or exactly 0 "
+        "(invalid): the statement itself names the absolute 1e-8 threshold on the length",
         "numpy ufuncs (np.sin(field), np.float64 + field) are not in the statement's list of "
         "operations and are not judged here",
     ],
@@ -409,14 +409,24 @@ def set_validity(ctx):
 
     ctx.expect_raises("C08.set.wrong_shape_rejected", assign_bad, unchanged=[g],
                       what={"shape": bad.shape, "n": n})
-    # 'norm': exactly the cells whose value is non-zero
-    lengths = np.where(rng.random(n) < 0.5, 10.0 ** rng.uniform(-6, 6, n), 0.0)
-    tiny = rng.random(n) < 0.2
-    lengths = np.where(tiny, 10.0 ** rng.uniform(-15, -9, n), lengths)
-    exp_norm = lengths >= 1e-6
+    # 'norm': exactly the cells whose value is non-zero; the statement fixes the
+    # threshold (absolute 1e-8 on the length), so lengths clearly below (<= 0.9e-8) and
+    # clearly above (>= 1.1e-8) it are judged; components may all be below 1e-8 while the
+    # length is above it
+    r = rng.random(n)
+    lengths = np.where(r < 0.35, 10.0 ** rng.uniform(-6, 6, n), 0.0)
+    lengths = np.where((r >= 0.35) & (r < 0.5), 10.0 ** rng.uniform(-15, -9, n), lengths)
+    lengths = np.where((r >= 0.5) & (r < 0.65), rng.uniform(1.1e-8, 1.7e-8, n), lengths)
+    lengths = np.where((r >= 0.65) & (r < 0.75), rng.uniform(0.2e-8, 0.9e-8, n), lengths)
+    exp_norm = lengths >= 1.1e-8
     dirs = rng.normal(size=(*n, f.nvdim))
+    diag = rng.random(n) < 0.5  # near-diagonal directions: all components alike
+    dirs = np.where(diag[..., np.newaxis], rng.choice([-1.0, 1.0], size=(*n, f.nvdim))
+                    * (1 + 0.05 * rng.random((*n, f.nvdim))), dirs)
     dirs /= np.linalg.norm(dirs, axis=-1, keepdims=True)
     arr = dirs * lengths[..., np.newaxis]
+    lengths = np.linalg.norm(arr, axis=-1)  # as stored
+    judged = (lengths <= 0.9e-8) | (lengths >= 1.1e-8)
     for via in ("setter", "constructor"):
         what = {"form": "norm", "via": via, "ndim": spec.nd, "nvdim": f.nvdim}
         if via == "setter":
@@ -428,8 +438,8 @@ def set_validity(ctx):
             a0 = core.arr_hash(np.asarray(arr, dtype=h.array.dtype))
         ctx.check("C08.set.values_unchanged", core.arr_hash(h.array) == a0, what=what)
         ctx.check("C08.set.bool_shape", h.valid.dtype == np.bool_ and h.valid.shape == n, what=what)
-        ctx.check("C08.set.norm", np.array_equal(h.valid, exp_norm), what=what, got=h.valid,
-                  expected=exp_norm, lengths=lengths)
+        ctx.check("C08.set.norm", np.array_equal(h.valid[judged], exp_norm[judged]), what=what,
+                  got=h.valid, expected=exp_norm, lengths=lengths)
 
 
 def run_case(ctx, i):
